@@ -72,7 +72,7 @@ func tornVariants(e *simfs.Entry, r *core.Rand, all bool) []int {
 
 func (run *sRun) crashPoints() []sCrashPt {
 	c := run.c
-	if c.OnlyK >= 0 {
+	if c.OnlyK >= 0 && run.env.Extra["unpin"] != "all" {
 		return []sCrashPt{{c.OnlyInc, c.OnlyK, c.OnlyTorn}}
 	}
 	var pts []sCrashPt
@@ -107,7 +107,9 @@ func (run *sRun) crashPoints() []sCrashPt {
 			sel := ks
 			if c.PerClass > 0 && len(ks) > c.PerClass {
 				sel = nil
-				// always the first boundary of the class, then seeded others
+				// always the first boundary of the class, then seeded others (a class
+				// with several instances, e.g. the removals of the log files of all
+				// partitions, is cut in the middle too)
 				sel = append(sel, ks[0])
 				for _, x := range run.r.Sample(len(ks)-1, c.PerClass-1) {
 					sel = append(sel, ks[x+1])
@@ -209,16 +211,34 @@ func (run *sRun) crashEnum() *core.Violation {
 			out.Faults["crash"]++
 		}
 		out.Stats["crash_states"]++
+		pinned := c.OnlyK >= 0 && run.env.Extra["unpin"] == ""
+		outerPinned := c.OnlyK >= 0 && run.env.Extra["unpin"] == "inner"
+		at["pin"] = fmt.Sprintf("%d,%d,%d,-1,-1", p.inc, p.k, p.torn)
 		v, recJournal := run.recoverAndCheck(dst, pre, post, opi, where, at, true, n)
 		if v == nil && c.Nested > 0 && len(recJournal) > 0 {
 			// crash again during recovery
-			for _, k2 := range run.r.Sample(len(recJournal), c.Nested) {
+			nestedPts := run.r.Sample(len(recJournal), c.Nested)
+			if pinned {
+				nestedPts = nil
+				if c.OnlyK2 >= 0 && c.OnlyK2 < len(recJournal) {
+					nestedPts = []int{c.OnlyK2}
+				}
+			} else if outerPinned && c.OnlyK2 >= 0 {
+				// the recovery journal may be permuted between executions: try every position
+				nestedPts = nestedPts[:0]
+				for i := range recJournal {
+					nestedPts = append(nestedPts, i)
+				}
+			}
+			for _, k2 := range nestedPts {
 				dst2 := filepath.Join(run.env.Scratch, fmt.Sprintf("crash2-%d-%d-%d", p.inc, p.k, k2))
 				if err := im.Snapshot(p.k, p.torn, dst2); err != nil {
 					panic(core.InfraPanic("image: " + err.Error()))
 				}
 				torn2 := -1
-				if e := recJournal[k2]; e.Kind == simfs.KWrite && len(e.Data) > 8 && run.r.Bool(0.3) {
+				if pinned {
+					torn2 = c.OnlyTorn2
+				} else if e := recJournal[k2]; e.Kind == simfs.KWrite && len(e.Data) > 8 && run.r.Bool(0.3) {
 					tv := tornVariants(e, run.r, false)
 					if len(tv) > 0 {
 						torn2 = tv[run.r.Intn(len(tv))]
@@ -240,6 +260,7 @@ func (run *sRun) crashEnum() *core.Violation {
 				out.Faults["nested_crash"]++
 				out.Stats["crash_states"]++
 				at2 := map[string]string{"phase": "crash", "op": opk, "inflight": inflight, "torn": fmt.Sprint(p.torn >= 0), "nested": "true",
+					"pin": fmt.Sprintf("%d,%d,%d,%d,%d", p.inc, p.k, p.torn, k2, torn2),
 					"inflight2": fmt.Sprintf("%s %s", recJournal[k2].Kind, simfs.PathClass(recJournal[k2].Path))}
 				where2 := where + fmt.Sprintf("; second crash during recovery before its journal entry %d/%d (%s), torn=%d", k2, len(recJournal), recJournal[k2].String(), torn2)
 				v2, _ := run.recoverAndCheck(dst2, pre, post, opi, where2, at2, false, n)
@@ -250,7 +271,7 @@ func (run *sRun) crashEnum() *core.Violation {
 			}
 		}
 		if v != nil {
-			if run.env.KnownID(v, out) != "" && c.OnlyK < 0 {
+			if run.env.KnownID(v, out) != "" && !pinned {
 				continue
 			}
 			return v
@@ -290,13 +311,13 @@ func (run *sRun) recoverAndCheck(dir string, pre, post *sModel, opi int, where s
 	if pre != post {
 		relax = &sRelax{pre: pre, post: post}
 	}
-	if v := readChecksOn(node.sh, post, c, run.r, out, run.prop, opi, "crash", 2, relax); v != nil {
+	if v := readChecksOn(node.sh, post, c, run.r, out, run.prop, opi, "crash", 1, relax); v != nil {
 		v.Kind = "crash_" + v.Kind
 		v.Detail = where + ": " + v.Detail
 		v.Attrs = mergeAttrsS(v.Attrs, at)
 		return v, recJournal
 	}
-	if !suffix {
+	if !suffix || (c.PerClass > 0 && n%3 != 0 && c.OnlyK < 0) {
 		return nil, recJournal
 	}
 	// keep using the recovered shard
